@@ -55,6 +55,11 @@ public:
         if (this == &other)
             return *this;
 
+        // release the current contents
+        for (T &element : *this)
+            element.~T();
+        free(m_data);
+
         m_pos = 0;
         m_size = other.m_size;
         m_capacity = other.m_capacity;
